@@ -34,7 +34,7 @@ MaxId == NIns
 InitUp == CHOOSE U \in SUBSET Insts : \A r \in Reps : Cardinality({i \in U : RepOf[i] = r}) = 1
 
 MCInit == /\ now = 0 /\ ag = [s \in Secs |-> "none"] /\ disk = {} /\ rpc = [s \in Secs |-> Idle]
-           /\ sentTo = [s \in Secs |-> {}] /\ marked = {} /\ acked = {} /\ forgot = <<>>
+           /\ sentTo = [s \in Secs |-> {}] /\ marked = [s \in Secs |-> {}] /\ acked = {} /\ forgot = <<>>
            /\ up = [i \in Insts |-> i \in InitUp]
            /\ rows = [i \in Insts |-> <<>>] /\ polls = [i \in Insts |-> <<>>]
            /\ conv = [i \in Insts |-> {}] /\ batch = [i \in Insts |-> <<>>]
@@ -56,17 +56,23 @@ Tick == /\ now < MaxT
         /\ now' = now + 1
         /\ UNCHANGED <<ag, disk, rpc, sentTo, marked, acked, forgot, up, rows, polls, conv, batch, storedBy, replied, rejected, faults, alive, net, lastT, done>>
 
-LivenessFlip(r) == /\ (faults < MaxFaults \/ ~alive[r])        \* turning a replica "dead" costs a fault, recovery is free
-                   /\ alive' = [alive EXCEPT ![r] = ~@]
-                   /\ faults' = IF alive[r] THEN faults + 1 ELSE faults
+\* the live checker turns a replica "dead" in the agent's view (a fault: it needs failed keep-alives)
+LivenessFlip(r) == /\ faults < MaxFaults /\ alive[r]
+                   /\ alive' = [alive EXCEPT ![r] = FALSE]
+                   /\ faults' = faults + 1
                    /\ UNCHANGED <<now, ag, disk, rpc, sentTo, marked, acked, forgot, up, rows, polls, conv, batch, storedBy, replied, rejected, net, lastT, done>>
+
+\* ... and back to "alive" once keep-alives succeed again (goLiveChecker), which they do while an instance runs
+LivenessRecover(r) == /\ ~alive[r] /\ \E i \in Insts : up[i] /\ RepOf[i] = r
+                      /\ alive' = [alive EXCEPT ![r] = TRUE]
+                      /\ UNCHANGED <<vars, net, lastT, done>>
 
 --------------------------------------------------------------------------------
 (* agent *)
-Mark(s) == now = s /\ MarkCore(s) /\ UNCHANGED <<alive, net, lastT, done>>
+Mark(s) == now = s /\ marked[s] = {} /\ MarkCore(s, {s}) /\ UNCHANGED <<alive, net, lastT, done>>
 
 \* flushed once the second is over; every recent sender busy is modelled by the "hist" path
-Produce(s, path) == /\ now > s /\ s \in marked
+Produce(s, path) == /\ now > s /\ marked[s] # {}
                     /\ ToSendersCore(s, path) /\ UNCHANGED <<alive, net, lastT, done>>
 
 ReplicaFor(s) == LET p == (s % 3) + 1
@@ -121,13 +127,26 @@ Deliver(s) == /\ net[s].st = "replied"
 
 \* the connection broke (reset, lost response, aggregator gone): the agent sees an error;
 \* whatever the aggregator does with the request afterwards goes nowhere
-ConnError(s) == /\ net[s].st \in {"sent", "filed", "waiting", "replied", "broken"}
-                /\ net[s].st # "broken" => faults < MaxFaults
-                /\ faults' = IF net[s].st # "broken" THEN faults + 1 ELSE faults
+ConnError(s) == /\ net[s].st \in {"sent", "filed", "waiting", "replied"}
+                /\ faults < MaxFaults
+                /\ faults' = faults + 1
                 /\ net' = [net EXCEPT ![s] = NoNet]
                 /\ rpc[s] # Idle
                 /\ acked' = acked /\ rpc' = [rpc EXCEPT ![s] = Idle]
                 /\ UNCHANGED <<now, ag, disk, sentTo, marked, forgot, up, rows, polls, conv, batch, storedBy, replied, rejected, alive, lastT, done>>
+
+\* the request was sent to a replica with no running instance: the RPC fails by itself
+\* (connection refused / FailIfNoConnection / deadline), no fault budget needed
+DeadPeer(s) == /\ net[s].st = "sent" /\ rpc[s] # Idle
+               /\ ~\E i \in Insts : up[i] /\ RepOf[i] = rpc[s].rep
+               /\ net' = [net EXCEPT ![s].st = "broken"]
+               /\ UNCHANGED <<vars, alive, lastT, done>>
+
+\* the agent notices a broken connection
+Broken(s) == /\ net[s].st = "broken" /\ rpc[s] # Idle
+             /\ net' = [net EXCEPT ![s] = NoNet]
+             /\ rpc' = [rpc EXCEPT ![s] = Idle]
+             /\ UNCHANGED <<now, ag, disk, sentTo, marked, acked, forgot, up, rows, polls, conv, batch, storedBy, replied, rejected, faults, alive, lastT, done>>
 
 --------------------------------------------------------------------------------
 (* aggregator instance i *)
@@ -184,14 +203,17 @@ HistKeys(i) == {k \in DOMAIN rows[i] : k[1] = "historic"}
 InsertBegin(i, id) ==
     /\ up[i] /\ id \in 1..MaxId
     /\ \E b \in conv[i] :
-       \E hs \in {{}} \cup {{k} : k \in {k \in HistKeys(i) : \A k2 \in HistKeys(i) : k[2] <= k2[2]}} :
-          /\ \A k \in hs : Quiet(i, k) /\ ~(Oldest >= HW /\ k[2] < Oldest - HW)
+       \* willInsertHistoric: with idle historic inserters the oldest waiting (non-stale) historic
+       \* bucket always joins the batch
+       LET live == {k \in HistKeys(i) : ~(Oldest >= HW /\ k[2] < Oldest - HW)}
+           hs == {k \in live : \A k2 \in live : k[2] <= k2[2]}
+       IN /\ \A k \in hs : Quiet(i, k)
           /\ InsertBeginCore(i, id, {b} \cup hs)
     /\ done' = [done EXCEPT ![i] = {x \in @ : x[1] # id}]
     /\ UNCHANGED <<alive, net, lastT>>
 
 StorageAccepts(i, id) == /\ up[i] /\ id \in DOMAIN batch[i] /\ batch[i][id].st = "sending"
-                         /\ StoredCore(i, id, batch[i][id].rows)
+                         /\ StoredCore(i, id, RowIds(batch[i][id].rows))
                          /\ UNCHANGED <<alive, net, lastT, done>>
 
 InsertOK(i, id) == /\ up[i] /\ id \in DOMAIN batch[i] /\ batch[i][id].st = "stored"
@@ -243,24 +265,36 @@ AggStart(j) ==
     /\ UNCHANGED <<now, ag, disk, rpc, sentTo, marked, acked, forgot, rows, polls, conv, batch, storedBy, replied, rejected, faults, alive, net, done>>
 
 --------------------------------------------------------------------------------
-Agent == \E s \in Secs : \/ Mark(s) \/ Produce(s, "chan") \/ Produce(s, "hist") \/ SavePut(s) \/ RecentSend(s)
+Agent == \/ \E r \in Reps : LivenessRecover(r)
+         \/ \E s \in Secs : \/ Mark(s) \/ Produce(s, "chan") \/ Produce(s, "hist") \/ SavePut(s) \/ RecentSend(s)
                          \/ RecentToHistoric(s) \/ ForgetAcked(s) \/ HistPop(s) \/ HistOutOfWindow(s)
-                         \/ HistSend(s) \/ Deliver(s)
-Aggregator == \E i \in Insts : \/ AggTick(i)
+                         \/ HistSend(s) \/ Deliver(s) \/ DeadPeer(s) \/ Broken(s)
+Aggregator == \E i \in Insts : \/ AggTick(i) \/ AggStart(i)
                                \/ \E s \in Secs : Handle(i, s) \/ Register(i, s) \/ ReplyFull(i, s) \/ ReplyStale(i, s)
                                \/ \E id \in 1..MaxId : \/ InsertBegin(i, id) \/ StorageAccepts(i, id) \/ InsertOK(i, id)
                                                        \/ \E s \in Secs : ReplyInsert(i, id, s)
 Faults == \/ \E s \in Secs : ConnError(s)
-          \/ \E i \in Insts : AggCrash(i) \/ AggStart(i) \/ \E id \in 1..MaxId : InsertFail(i, id)
+          \/ \E i \in Insts : AggCrash(i) \/ \E id \in 1..MaxId : InsertFail(i, id)
           \/ \E r \in Reps : LivenessFlip(r)
 
 MCNext == Tick \/ Agent \/ Aggregator \/ Faults
+
+(* PROGRESS configuration: bounded liveness as an invariant.  Time is urgent (it advances only
+   when neither the agent nor an aggregator can take a step: maximal progress), faults happen
+   only during the first FaultsUntil seconds.  If some second could get stuck - nobody retries
+   it, a wake-up is lost, a reply is never produced - the clock runs to the horizon with the
+   second unsettled and SettledAtHorizon fails. *)
+FaultsUntil == SW + FW + 2
+UrgentTick == Tick /\ ~ENABLED (Agent \/ Aggregator)
+EarlyFaults == now <= FaultsUntil /\ Faults
+ProgressNext == UrgentTick \/ Agent \/ Aggregator \/ EarlyFaults
+SettledAtHorizon == (now = MaxT /\ ~ENABLED (Agent \/ Aggregator)) => \A s \in Secs : Settled(s)
 MCSpec == MCInit /\ [][MCNext]_mcvars
 
 (* fairness for the liveness check: everything but the faults *)
 MCFairSpec == MCSpec /\ WF_mcvars(Tick) /\ WF_mcvars(Agent) /\ WF_mcvars(Aggregator)
               /\ \A i \in Insts : WF_mcvars(AggStart(i))
-              /\ \A r \in Reps : WF_mcvars(~alive[r] /\ LivenessFlip(r))
+
 
 --------------------------------------------------------------------------------
 (* design-level properties in addition to Conveyor's invariants *)
